@@ -45,12 +45,9 @@ def gen_cond(rng, o, for_rule, depth=0):
         return {"kind": "sim", "rel": rel, "thr": thr, "repeat": rep}
     thr = rng.randrange(0, 24) * 3600 + rng.choice([0, 0, 900, 1830])
     rel = rng.choice(["=", ">", "<"]) if for_rule else "="
-    # Inside AND/OR trees only daily clock conditions are generated: And/OrCondition.backtrack crashes (TypeError) on the None
-    # backtrack that a clock condition leaves behind when evaluated before its first day (first_day > 0, or a once-only
-    # condition whose threshold precedes start_clocktime).  API-only feature; recorded in DESIGN.md.
-    top = (depth == 0 and not for_rule)
-    return {"kind": "clock", "rel": rel, "thr": thr, "repeat": (rng.random() < 0.7 if top else True),
-            "first_day": (rng.choice([0, 0, 1]) if top else 0)}
+    # (And/OrCondition.backtrack used to crash on the None backtrack a clock condition left behind before its first day: fixed in /repo,
+    # so compound conditions over once-only / first_day clock conditions are generated as well)
+    return {"kind": "clock", "rel": rel, "thr": thr, "repeat": rng.random() < 0.7, "first_day": rng.choice([0, 0, 1])}
 
 
 def gen_cfg(rng):
